@@ -1,13 +1,26 @@
 package main
 
-import "strings"
+import (
+	"strings"
+
+	"github.com/cosmos/iavl/verifcheck/ref"
+)
 
 // Matchers for known findings. Each looks at the cause of a violation, not at a whole history, so that a
 // different violation of the same property is still reported.
 
 // modelTrace replays a history on the model alone and calls f before each step with the model state.
 func modelTrace(cfg Cfg, hist []Op, f func(i int, m *Model, op Op)) {
+	modelTraceFrom(nil, cfg, hist, f)
+}
+
+// modelTraceFrom starts from a given initial model (e.g. a legacy fixture) instead of the empty store.
+func modelTraceFrom(base *Model, cfg Cfg, hist []Op, f func(i int, m *Model, op Op)) {
 	w := &World{Cfg: cfg, M: NewModel(cfg.IV, cfg.IVSet)}
+	if base != nil {
+		w.M = base.Clone()
+		w.M.Reopen()
+	}
 	for i, op := range hist {
 		f(i, w.M, op)
 		w.modelOnly(op)
@@ -240,5 +253,63 @@ func init() {
 			return false
 		}
 		return c.V.Facts["garbage_nonce"] == 1 && c.V.Facts["garbage_leaf"] == true && c.V.Facts["garbage_version_retained"] == false
+	}
+}
+
+func init() {
+	// Two versions are committed whose root is an unmodified legacy node (a commit without writes on a legacy
+	// root, or a removal that leaves a legacy subtree as the root), the two roots are different nodes, and both
+	// were written by the same legacy version: SaveVersion converts each to the new format under the same key
+	// (legacy version, nonce 0), so the second overwrites the first and the earlier version reads the wrong tree.
+	matchers["c16_legacy_root_conversion_collision"] = func(c *MatchCtx) bool {
+		if c.Base == nil {
+			return false
+		}
+		legacyLatest := c.Base.LegacyLatest
+		seen := map[int64]*ref.Node{}
+		hit := false
+		modelTraceFrom(c.Base, c.Cfg, c.Hist, func(i int, m *Model, op Op) {
+			if op.Kind != OpSave || m.Has(m.WorkingVersion()) {
+				return
+			}
+			r := m.Work
+			if r == nil || r.Version == 0 || r.Version > legacyLatest {
+				return
+			}
+			if prev, ok := seen[r.Version]; ok && prev != r {
+				hit = true
+			}
+			seen[r.Version] = r
+		})
+		return hit
+	}
+}
+
+func init() {
+	// A commit converted a legacy root node of legacy version L to the new format (stored under (L,0)); a later
+	// rollback to a legacy version removes every new-format version but not the converted copy. Version
+	// discovery prefers new-format keys, finds (L,0) and reports L as the latest version: the database loads the
+	// wrong version or does not load at all.
+	matchers["c16_rollback_leaves_converted_legacy_root"] = func(c *MatchCtx) bool {
+		if c.Base == nil {
+			return false
+		}
+		legacyLatest := c.Base.LegacyLatest
+		converted := map[int64]bool{}
+		hit := false
+		modelTraceFrom(c.Base, c.Cfg, c.Hist, func(i int, m *Model, op Op) {
+			switch op.Kind {
+			case OpSave:
+				if r := m.Work; r != nil && r.Version != 0 && r.Version <= legacyLatest && !m.Has(m.WorkingVersion()) {
+					converted[r.Version] = true
+				}
+			case OpLVFO, OpDelFrom:
+				// the rollback removes every new-format version (target at or below the legacy latest version)
+				if m.Has(op.Ver) && op.Ver <= legacyLatest && len(converted) > 0 {
+					hit = true
+				}
+			}
+		})
+		return hit
 	}
 }
